@@ -37,6 +37,12 @@
 (*   "leakSuper"      Strip only looks at the first corner                 *)
 (*   "noHoleBoundary" every edge of a collected triangle is fanned         *)
 (*   "keepBad"        the collected triangles are not removed              *)
+(*   "sharedCap"      the flags "this edge is shared" live in a store with *)
+(*                    room for the edges of Cap collected triangles; the   *)
+(*                    edges of the others are never flagged and all go to  *)
+(*                    the hole boundary (a fixed-width bit set: right up   *)
+(*                    to a cavity of Cap triangles, wrong beyond it; the   *)
+(*                    model uses Cap = 2 so that 4 lattice points reach it)*)
 (* and "noWindingFix" (the fan keeps the boundary edge's direction), which *)
 (* TLC shows to be EQUIVALENT on these inputs: the boundary of a hole in a *)
 (* clockwise triangulation already runs clockwise around the new point, so *)
@@ -94,6 +100,7 @@ Start ==
 InsideCC(t, p) ==
     InCircleDet(All[t[1]], All[t[2]], All[t[3]], p) < 0
 
+Cap == 2
 SameEdge(e, f) == e = f \/ e = <<f[2], f[1]>>
 CCW(t) == Orient(All[t[1]], All[t[2]], All[t[3]]) > 0
 
@@ -101,8 +108,12 @@ Insert ==
     /\ phase = "insert" /\ i <= n
     /\ LET p == All[i]
            bad == {t \in tris : InsideCC(t, p)}
+           \* "sharedCap": the shared-edge flags have room for the first Cap collected triangles only
+           low == IF Variant = "sharedCap" /\ Cardinality(bad) > Cap
+                  THEN CHOOSE S \in SUBSET bad : Cardinality(S) = Cap ELSE bad
            hole == {e \in UNION {Edges(t) : t \in bad} :
                       \/ Variant = "noHoleBoundary"
+                      \/ \E t \in bad \ low : e \in Edges(t)
                       \/ \A t \in bad : e \in Edges(t) => \A t2 \in bad \ {t} : \A f \in Edges(t2) : ~SameEdge(e, f)}
            fan(e) == LET t == <<e[1], e[2], i>>
                      IN IF Variant # "noWindingFix" /\ CCW(t) THEN <<e[1], i, e[2]>> ELSE t
